@@ -5,17 +5,12 @@
 #[verifier::external_body] pub struct Pattern { _p: core::marker::PhantomData<()> }
 #[verifier::external_body] pub struct PatternError { _p: core::marker::PhantomData<()> }
 pub uninterp spec fn glob_valid(s: Seq<char>) -> bool;
-pub uninterp spec fn glob_matches(pat: Seq<char>, text: Seq<char>) -> bool;
 impl Pattern {
     pub uninterp spec fn view(&self) -> Seq<char>;
     /// glob::Pattern::new: Ok exactly for the valid pattern strings; the result's source text is the argument
     #[verifier::external_body]
     pub fn new(pattern: &str) -> (r: Result<Pattern, PatternError>)
         ensures match r { Ok(p) => glob_valid(pattern@) && p@ == pattern@, Err(_) => !glob_valid(pattern@) }
-    { unimplemented!() }
-    #[verifier::external_body]
-    pub fn matches(&self, s: &str) -> (r: bool)
-        ensures r == glob_matches(self@, s@)
     { unimplemented!() }
 }
 pub open spec fn pat_views(v: Seq<Pattern>) -> Seq<Seq<char>> { v.map_values(|p: Pattern| p@) }
